@@ -2,6 +2,7 @@
 package configh
 
 import (
+	"time"
 	"bytes"
 	"encoding/json"
 	"fmt"
@@ -63,7 +64,10 @@ func replay(args map[string]string) error {
 		sc := s.GetScheduleConfig().Clone()
 		sc.MigrateDeprecatedFlags()
 		pc := s.GetPDServerConfig().Clone()
-		pc.MigrateDeprecatedFlags()
+		// what a reload of the persisted form gives: the deprecated trace-region-flow flag is written only when true and read
+		// back as true when absent, so it never changes flow-round-by-digit for configurations produced here; it ends up false
+		// in memory. (MigrateDeprecatedFlags itself is not idempotent: a server that has reloaded once holds false already.)
+		pc.TraceRegionFlow = false
 		lp := s.GetLabelProperty()
 		if lp == nil {
 			lp = config.LabelPropertyConfig{}
@@ -219,6 +223,15 @@ func replay(args map[string]string) error {
 						c.ReplicationMode = "no-such-mode"
 					}
 					call = func() error { return s.SetReplicationModeConfig(c) }
+				}
+			case "LeaderChange":
+				// the server resigns and campaigns again: it reloads the configuration from storage (with the migration of
+				// deprecated flags) and persists its view with the next accepted change
+				ev["section"], ev["val"] = "leader", "change"
+				call = func() error {
+					pd.S.GetMember().ResetLeader()
+					time.Sleep(200 * time.Millisecond)
+					return pd.WaitLeader(30 * time.Second)
 				}
 			case "SetLabel":
 				kv := labelKV[st.Str(0)]
